@@ -281,7 +281,7 @@ Lemma handle_sn_disc_asleep cfg s d S o :
 Proof.
   intros Hd. unfold handle_sn. destruct (negb (packet_legal cfg s (Disconnect d))); [discriminate|].
   apply N.eqb_neq in Hd. rewrite Hd. cbv zeta.
-  match goal with |- context [sn_send ?S0 ?p] => destruct (sn_send S0 p) as [[s1 o1] [|e]] end; cbn; intros H; inversion H.
+  match goal with |- context [sn_send_now ?S0 ?p] => destruct (sn_send_now S0 p) as [[s1 o1] [|e]] end; cbn; intros H; inversion H.
   reflexivity.
 Qed.
 
